@@ -84,6 +84,25 @@ def rebalance_algo(chk, pid):
             u = b.get("update")
             chk.ob("C06.R3", u is not None and canon(u) == canon(sym.FALSE), ALGOS, host, "rebalance-deferred", "updates are deferred while the children are rebalanced against the captured base",
                    where=e.where, expected="update=False", found=short(u) if u else "default")
+    if pid == "C17":
+        # close loop in a fixed-income strategy: the tested quantity is the child's notional value
+        for e in cl:
+            g = G(e)
+            child = e.args[0] if e.args else None
+            c = ("sub", ("fld", TARGET, "children", 0), child) if child is not None else None
+            gg = sym.sat(tuple(g) + ((fi_atom, True),))
+            tested = []
+            for rawc, rp in e.graw:
+                rc = sym.restrict(rawc, gg)
+                for a, p in sym.literals(rc, rp):
+                    if a[0] in ("zero", "isnan") and not p:
+                        tested.append(a)
+            want_v = ("fld", c, R.NOTIONAL, 0)
+            ok = any(a[0] == "zero" and canon(a) == canon(("zero", sym._abs_norm(sym.to_rat(want_v)))) for a in tested) and any(
+                a[0] == "isnan" and canon(a[1]) == canon(want_v) for a in tested)
+            chk.ob("C17.R5", ok, ALGOS, host, "close-open-positions:fi",
+                   "in a fixed-income strategy a non-target child is closed exactly when its NOTIONAL value is non-zero (and not NaN): a zero-priced bond or a hedge with zero notional is judged by notional, not by market value",
+                   where=e.where, expected="close when c.notional_value != 0 and not isnan(c.notional_value)", found="; ".join(short(a, 100) for a in tested))
     if pid == "C06":
         # close loop: children not in targets whose value (notional for FI) is non-zero and not NaN
         for e in cl:
